@@ -1138,14 +1138,13 @@ class AioTarStream:
                     self._dbg(2, f"0x{self.offset:X}: {e}")
                     self.offset += tarfile.BLOCKSIZE
                     continue
-                elif self.offset == 0:
-                    raise tarfile.ReadError(str(e)) from None
+                raise tarfile.ReadError(str(e)) from None
             except tarfile.EmptyHeaderError:
                 if self.offset == 0:
                     raise tarfile.ReadError("empty file") from None
+                raise tarfile.ReadError("unexpected end of data") from None
             except tarfile.TruncatedHeaderError as e:
-                if self.offset == 0:
-                    raise tarfile.ReadError(str(e)) from None
+                raise tarfile.ReadError(str(e)) from None
             except tarfile.SubsequentHeaderError as e:
                 raise tarfile.ReadError(str(e)) from None
             except Exception as e:
